@@ -90,8 +90,17 @@ func c08Check(c *hist.Case, r *evid.Rec) []evid.Disc {
 
 func c08Gen(rt *rapid.T) *hist.Case {
 	c := &hist.Case{}
+	c.Cfg.ClientPIDBase = 0
+	switch rapid.IntRange(0, 2).Draw(rt, "msgexpiry") {
+	case 0:
+		z := int64(0)
+		c.Cfg.MaxMessageExpiry = &z // "do not enforce"
+	case 1:
+		h := int64(3600)
+		c.Cfg.MaxMessageExpiry = &h
+	}
 	ver := pick(rt, "version", []byte{4, 5, 5, 3})
-	exp := uint32(300)
+	exp := uint32(3000)
 	pubConnect := hist.Action{Kind: "connect", Client: 0, Version: ver, Clean: false}
 	if ver == 5 {
 		pubConnect.Expiry = &exp
@@ -102,7 +111,7 @@ func c08Gen(rt *rapid.T) *hist.Case {
 		hist.Action{Kind: "connect", Client: 2, Version: 4, Clean: true, AutoAck: true},
 		pubConnect)
 	action := rapid.Custom(func(rt *rapid.T) hist.Action {
-		switch rapid.IntRange(0, 9).Draw(rt, "kind") {
+		switch rapid.IntRange(0, 10).Draw(rt, "kind") {
 		case 0, 1, 2:
 			return hist.Action{Kind: "publish", Client: 0, Topic: pick(rt, "topic", []string{"t/a", "t/b"}), QoS: 2, PIDPool: rapid.IntRange(1, 3).Draw(rt, "pool")}
 		case 3, 4, 5:
@@ -111,8 +120,13 @@ func c08Gen(rt *rapid.T) *hist.Case {
 			return hist.Action{Kind: "pubrel", Client: 0, Index: rapid.IntRange(0, 2).Draw(rt, "idx")}
 		case 8:
 			return hist.Action{Kind: pick(rt, "how", []string{"drop", "close", "reconnect"}), Client: 0}
-		default:
+		case 9:
 			return hist.Action{Kind: "publish", Client: 2, Topic: "t/other", QoS: byte(rapid.IntRange(0, 2).Draw(rt, "oq"))}
+		default:
+			// housekeeping between the transmissions, at a virtual time that is before any message expiry the
+			// configuration can cause (no maximum: any time; maximum 3600 s: up to 30 min ahead)
+			off := int64(rapid.IntRange(0, 1800).Draw(rt, "tickoff"))
+			return hist.Action{Kind: "tick", Tick: pick(rt, "tick", []string{"inflight", "clients", "retained"}), Offset: off}
 		}
 	})
 	for _, a := range rapid.SliceOfN(action, 3, 30).Draw(rt, "actions") {
@@ -129,7 +143,7 @@ func c08Gen(rt *rapid.T) *hist.Case {
 }
 
 func TestC08(t *testing.T) {
-	r := evid.New("C08", "rapid: a publisher with a persistent session (v3.1/v3.1.1 clean session 0, v5 expiry>0) sends QoS 2 PUBLISH packets with identifiers from a pool of 3 (so identifiers are reused for new messages after completion), retransmits them with DUP 0-3 times before PUBREL, drops/closes the connection or is taken over and reconnects with session present before retransmitting, sends PUBREL; a subscriber (QoS 2, always connected, acknowledging) and a third client with unrelated traffic; oracle: per message tag the subscriber receives exactly one copy over the whole history, every transmission is answered by exactly one PUBREC with that identifier and (v5) a reason code < 0x80; non-trivial = message transmitted >= 2 times before PUBREL; distinct by (history, tag)")
+	r := evid.New("C08", "rapid: a publisher with a persistent session (v3.1/v3.1.1 clean session 0, v5 expiry>0) sends QoS 2 PUBLISH packets with identifiers from a pool of 3 (so identifiers are reused for new messages after completion), retransmits them with DUP 0-3 times before PUBREL, with housekeeping ticks (virtual time up to 30 min ahead, below every configured message expiry: maximum message expiry in {0 = none, 3600 s, 24 h}) in between, drops/closes the connection or is taken over and reconnects with session present before retransmitting, sends PUBREL; a subscriber (QoS 2, always connected, acknowledging) and a third client with unrelated traffic; oracle: per message tag the subscriber receives exactly one copy over the whole history, every transmission is answered by exactly one PUBREC with that identifier and (v5) a reason code < 0x80; non-trivial = message transmitted >= 2 times before PUBREL; distinct by (history, tag)")
 	defer r.Finish(t)
 	if evid.ReplayMode() {
 		evid.Replay(t, r, replayPath(), c08Check)
